@@ -723,6 +723,8 @@ func checkC15(c *core.Ctx) {
 	c.Rule(rC15Do, "the do-transform pass of (*engine).eval hands the transform (and through it the recorder's DoEmit) one input fact per substitution row, and exactly the stored facts that unify with the rule's body atom (repeated variables agree, wildcards do not constrain): an aggregate's recorded inputs are the facts of its group", 2)
 	X := hv("X")
 	c02InputCaseRule(c, rC15Do, "do-transform-pass", "q(X,5,X)", []hTerm{X, hc(5), X}, "[1 5 1 2 5 2]")
+	c.Rule("TABLE.recorded-rule-is-the-source-rule", "the rule handed to the recorder is rebuilt from the evaluated clause by normalizeRule: it keeps head, head time, premises and transform (a recorded rule without its transform has another text and another identifier than the source rule)", 4)
+	clauseFieldCompleteness(c, "TABLE.recorded-rule-is-the-source-rule", []string{"engine.normalizeRule"}, []string{"Head", "HeadTime", "Premises", "Transform"})
 	c02InputCaseRule(c, rC15Do, "do-transform-pass:wildcards", "q(_,5,_)", []hTerm{hv("_"), hc(5), hv("_")}, "[1 5 1 1 5 2 2 5 2]")
 }
 
